@@ -482,6 +482,15 @@ func c16Corpus(h *c16, emit func(string) string, endTrace func()) {
 	emit("end")
 	endTrace()
 
+	// (1b) the Lean witness `f9ops` itself: 5 -> 6 at 50 % (MinVotingPower 1): stored 2, vote implies 3
+	c16Header(h, emit, "1", "1", hundred, hundred, 2, false)
+	emit("begin 6")
+	emit("delegate a0 v0 5")
+	emit(fmt.Sprintf("vote a0 %d:%s", g0, half))
+	emit("delegate a0 v0 1")
+	emit("end")
+	endTrace()
+
 	// (2) validator slash: bonded power changes, no hook
 	c16Header(h, emit, def, def, hundred, hundred, 2, false)
 	emit("begin 6")
